@@ -628,6 +628,29 @@ def exc_class(e):
 
 
 # ---- whole preconditions -------------------------------------------------------------------------------------
+NON_UNIT = [False]
+
+
+def eq_text(rng, x, L, c):
+    """one of several texts of the linear equality x + L = c (the shape decides whether and how the library uses it
+    for elimination: sum or difference at the top, eliminated fluent first or second, compound right-hand side)"""
+    neg = lambda e: ["*", "-1", e]
+    shape = rng.choice(["x+L", "x+L", "L+x", "x-N", "N'-x", "x=c-L"])
+    if shape == "L+x":
+        # the library eliminates a fluent of the first operand: when that is L, it divides by L's coefficient and the
+        # substituted coefficients are no longer integers - such a case is never in the exact class
+        NON_UNIT[0] = True
+    if shape == "x+L":
+        return f"(= (+ {x} {pddl(L)}) {c})"
+    if shape == "L+x":
+        return f"(= (+ {pddl(L)} {x}) {c})"
+    if shape == "x-N":
+        return f"(= (- {x} {pddl(neg(L))}) {c})"
+    if shape == "N'-x":
+        return f"(= (- {pddl(neg(L))} {x}) {pddl(str(-Fraction(c)))})"
+    return f"(= {x} (- {c} {pddl(L)}))"
+
+
 def case_disjunction(ctx, rng, fl, kind, digits, feats):
     """a precondition whose numeric conditions are joined by `or` (directly, or as the only child of the top-level `and`):
     an equality may not be used to rewrite its sibling disjuncts and a disjunct that always holds may not be dropped"""
@@ -648,7 +671,8 @@ def case_disjunction(ctx, rng, fl, kind, digits, feats):
         lhs = gen_poly(rng, fl, kind, max_deg=rng.choice([1, 1, 2]))
         rhs = gen_coef(rng, kind) if rng.random() < 0.65 else gen_poly(rng, fl, kind if kind != "near" else "dec", max_deg=1, nterms=1)
         ineqs.append((op, lhs, rhs))
-    conds = [f"(= (+ {x} {pddl(L)}) {c})" for x, L, c in eqs] + [f"({op} {pddl(l)} {pddl(r)})" for op, l, r in ineqs]
+    NON_UNIT[0] = False
+    conds = [eq_text(rng, x, L, c) for x, L, c in eqs] + [f"({op} {pddl(l)} {pddl(r)})" for op, l, r in ineqs]
     rng.shuffle(conds)
     fdecl = []
     for f in LIFTED:
@@ -681,7 +705,7 @@ def case_disjunction(ctx, rng, fl, kind, digits, feats):
     except (FormError, sx.ReadError) as e:
         ctx.violation(f"form:{classify_form(str(e))}", dict(wit, output=out, problem=str(e)))
         return None
-    exact = all(all_int(L) and all_int(c) for _, L, c in eqs) and all(all_int(l) and all_int(r) for _, l, r in ineqs)
+    exact = all(all_int(L) and all_int(c) for _, L, c in eqs) and all(all_int(l) and all_int(r) for _, l, r in ineqs) and not NON_UNIT[0]
     h = Fraction(0) if exact else K * Fraction(1, 2) * Fraction(1, 10 ** digits)
     allp = [expand_poly(["-", ["+", x, L], c]) for x, L, c in eqs] + [expand_poly(["-", l, r]) for _, l, r in ineqs]
 
@@ -777,7 +801,8 @@ def case_precondition(ctx, rng, fl, kind, digits, feats):
 
 
 def judge_precondition(ctx, rng, fl, digits, eqs, ineqs, free, history):
-    conds = [f"(= (+ {x} {pddl(L)}) {c})" for x, L, c in eqs] + [f"({op} {pddl(l)} {pddl(r)})" for op, l, r in ineqs]
+    NON_UNIT[0] = False
+    conds = [eq_text(rng, x, L, c) for x, L, c in eqs] + [f"({op} {pddl(l)} {pddl(r)})" for op, l, r in ineqs]
     rng.shuffle(conds)
     fdecl = []
     for f in LIFTED:
@@ -805,7 +830,7 @@ def judge_precondition(ctx, rng, fl, digits, eqs, ineqs, free, history):
     except (FormError, sx.ReadError) as e:
         ctx.violation(f"form:{classify_form(str(e))}", dict(wit, output=out, problem=str(e)))
         return None
-    exact = all(all_int(L) and all_int(c) for _, L, c in eqs) and all(all_int(l) and all_int(r) for _, l, r in ineqs)
+    exact = all(all_int(L) and all_int(c) for _, L, c in eqs) and all(all_int(l) and all_int(r) for _, l, r in ineqs) and not NON_UNIT[0]
     h = Fraction(0) if exact else K * Fraction(1, 2) * Fraction(1, 10 ** digits)
 
     def orig_truth(v):
